@@ -331,7 +331,7 @@ func symBundle(next int, allowFrag bool) (Bundle, []int) {
 		kinds = append(kinds, k)
 		if shards := verif.Param("shards", 1); shards > 1 && next >= 2 && i == 1 {
 			// the check configuration splits the pairs of block kinds over several workers
-			verif.Assume((k0*8+k)%shards == verif.Param("shard", 0))
+			verif.Assume((k-1)%shards == verif.Param("shard", 0))
 		}
 		bn := uint64(2 + i + 2*verif.Choose(nm("bn", i), 2)) // {2,4} then {3,5}
 		cbs = append(cbs, CanonicalBlock{
